@@ -31,7 +31,7 @@ func sameList(a, b []string) bool {
 }
 
 func c11(run *ev.Run) int {
-	run.SetRule("cases = random multimaps (1..10 X-... keys plus up to 2 ordinary names with varied first letters such as Trace-Id, Tenant, Trailer-Extra, T, 1..4 printable-ASCII values, -Bin keys with base64 of random bytes, some keys shared between headers, trailers and error metadata) as request headers, response headers, response trailers and error metadata x 3 protocols x 4 kinds x {success with >=1 message, success with 0 messages, error before first message, error after messages (one in four inside a multi-error), unary/client-stream response whose message cannot be marshalled} x HTTP/1.1 and HTTP/2 over real sockets; plus binary-header helper round trips over all byte strings up to length 2 (3 thorough) in padded and unpadded form; distinct by (config, scenario, key-overlap class)")
+	run.SetRule("cases = random multimaps (1..10 X-... keys plus up to 2 ordinary names with varied first letters such as Trace-Id, Tenant, Trailer-Extra, T, 1..4 printable-ASCII values, -Bin keys with base64 of random bytes, some keys shared between headers, trailers and error metadata) as request headers, response headers, response trailers and error metadata x 3 protocols x 4 kinds x {success with >=1 message, success with 0 messages, error before first message, error after messages (one in four inside a multi-error), unary/client-stream response whose message cannot be marshalled, bidi reply rejected by the client's own read limit} x HTTP/1.1 and HTTP/2 over real sockets; plus binary-header helper round trips over all byte strings up to length 2 (3 thorough) in padded and unpadded form; distinct by (config, scenario, key-overlap class)")
 	run.Assume("names starting with \"Trailer-\" are used for trailers only: the unary Connect protocol defines every response header with that prefix to be a trailer, so a header of that name cannot be told apart from one by design")
 	run.Assume("header names are valid and outside protocol-reserved prefixes; values are printable ASCII without leading/trailing blanks")
 	srv := svc.NewServer()
@@ -55,7 +55,7 @@ func c11(run *ev.Run) int {
 			}
 		}
 	}
-	scenarios := []string{"ok", "ok-zero", "err-early", "err-late", "send-fails"}
+	scenarios := []string{"ok", "ok-zero", "err-early", "err-late", "send-fails", "local-reject"}
 	per := run.Pick(12, 2000)
 	parallel(16, len(cfgs), func(ci int) {
 		c := cfgs[ci]
@@ -68,12 +68,22 @@ func c11(run *ev.Run) int {
 			if sc == "send-fails" && c.kind != svc.Unary && c.kind != svc.ClientStream {
 				continue // streams have the failed-first-send variant of the other scenarios
 			}
+			if sc == "local-reject" && c.kind != svc.Bidi {
+				continue
+			}
 			for i := 0; i < per; i++ {
 				key := fmt.Sprintf("c11/%s/%s/i=%d", cfg, sc, i)
 				if !run.Want(key) {
 					continue
 				}
-				c11Case(run, srv, cs, c.kind, c.proto, c.http2, cfg, sc, key)
+				csx := cs
+				if sc == "local-reject" {
+					// the client refuses the second reply itself (read limit): the
+					// stream ends with an error made by the client, and what it
+					// has read of the trailers must stay as it is afterwards
+					csx = srv.Clients(c.http2, append(svc.ProtoOpts(c.proto, c.codec), connect.WithReadMaxBytes(120))...)
+				}
+				c11Case(run, srv, csx, c.kind, c.proto, c.http2, cfg, sc, key)
 			}
 		}
 	})
@@ -160,6 +170,9 @@ func c11Case(run *ev.Run, srv *svc.Server, cs *svc.ClientSet, kind svc.Kind, pro
 		replies = append(replies, m)
 		prog.Steps = append(prog.Steps, svc.Step{Op: "send", Msg: m})
 	}
+	if sc == "local-reject" {
+		prog.Steps = append(prog.Steps, svc.Step{Op: "send", Msg: &gen.Msg{Id: 50}}, svc.Step{Op: "send", Msg: gen.New(51, 400, true)})
+	}
 	failing := sc == "err-early" || sc == "err-late"
 	if failing {
 		ce := connect.NewError(connect.CodeFailedPrecondition, errors.New("c11"))
@@ -216,6 +229,13 @@ func c11Case(run *ev.Run, srv *svc.Server, cs *svc.ClientSet, kind svc.Kind, pro
 				return
 			}
 		}
+	}
+	if sc == "local-reject" {
+		run.Count("local_reject.checked", 1)
+		if cl.Err == nil {
+			run.Violation(key+"/not-rejected", "the client's read limit did not reject the over-limit reply", detail)
+		}
+		return
 	}
 	if failing || sendFails {
 		var ce *connect.Error
